@@ -289,7 +289,7 @@ def hist(tier, seed, params):
         arrays, iters, held = [], [], 0
         ops = []
         for _ in range(rng.randint(2, maxops)):
-            cands = ["gen", "rotA", "rotI", "rotH", "roundtrip", "dropHeld"]
+            cands = ["gen", "rotA", "rotI", "rotH", "roundtrip", "dropHeld", "collect"]
             if arrays:
                 cands += ["intoIter", "map", "fold", "clone", "popBack", "popFront", "split", "remove", "swapRemove", "dropArr", "unflatten", "append", "prepend"] * 2
             if len(arrays) >= 2:
@@ -312,6 +312,14 @@ def hist(tier, seed, params):
                 ops.append(op)
             elif op == "dropHeld":
                 held = max(0, held - 1); ops.append(op)
+            elif op == "collect":
+                n = held if (held <= 8 and rng.random() < 0.5) else rng.randint(0, 8)
+                if len(arrays) >= 6:
+                    continue
+                if held == n:
+                    arrays.insert(0, n)
+                held = 0
+                ops.append("collect:%d" % n)
             elif op == "intoIter":
                 iters.insert(0, arrays.pop(0)); ops.append(op)
             elif op in ("map",):
@@ -385,5 +393,5 @@ def hist(tier, seed, params):
                 ops.append(op)
             elif op in ("iterFold", "iterRfold"):
                 held += iters.pop(0); ops.append(op)
-        out.append("ops=" + ";".join(ops))
+        out.append("kind=%s ops=%s" % ("z" if rng.random() < 0.25 else "tr", ";".join(ops)))
     return out
